@@ -102,7 +102,21 @@ def scn_names(ctx):
     from more_executors.futures import f_return
     flat = bool(ctx.choice(2, "flat_bind")) if bind_at is not None else False
 
+    # the bound callable: a plain function, or a callable object with attributes of its own
+    # (one of them called _name, as objects often have)
+    objkind = bool(ctx.choice(2, "callable-object")) if bind_at is not None else False
+
+    class Task(object):
+        def __init__(self):
+            self._name = "the-tasks-own-name"
+            self.name = "task"
+
+        def __call__(self, v=1):
+            return f_return(v) if flat else v
+
     def do_bind(o):
+        if objkind:
+            return o.flat_bind(Task()) if flat else o.bind(Task())
         return o.flat_bind(lambda v=1: f_return(v)) if flat else o.bind(lambda v=1: v)
 
     for i, ln in enumerate(layers):
